@@ -1068,6 +1068,17 @@ func checkProduced() {
 				fail(kind+":public-not-canonical-G2", "produced public key bytes are not a canonical G2 encoding (c0||c1 order): "+r.reason, map[string]any{"kind": kind, "encoded": ev.Hex(e)})
 			}
 		}
+		// the returned bytes belong to the caller: overwriting them must not change the object
+		for _, enc := range []func() []byte{pk.Encode, pk.EncodeCompressed} {
+			b0 := append([]byte{}, enc()...)
+			b1 := enc()
+			for i := range b1 {
+				b1[i] ^= 0xA5
+			}
+			if b2 := enc(); !bytes.Equal(b2, b0) {
+				fail(kind+":public:encode-aliases-internal-state", "Encode()/EncodeCompressed() changes after the caller overwrote an earlier result", map[string]any{"kind": kind, "encoded": ev.Hex(b0), "after": ev.Hex(b2)})
+			}
+		}
 		run.Distinct("produced/" + kind + "/" + ev.Hex(e))
 		outcome("produced/public/" + kind)
 	}
@@ -1077,6 +1088,15 @@ func checkProduced() {
 		d, err := crypto.DecodePrivateKey(algo, e)
 		if err != nil || !d.Equals(sk) || !sk.Equals(d) || !bytes.Equal(d.Encode(), e) {
 			fail(kind+":private", fmt.Sprintf("produced private key does not decode back to an Equal object (err=%v)", err), map[string]any{"kind": kind, "encoded": ev.Hex(e)})
+		}
+		{
+			b1 := sk.Encode()
+			for i := range b1 {
+				b1[i] ^= 0xA5
+			}
+			if b2 := sk.Encode(); !bytes.Equal(b2, e) {
+				fail(kind+":private:encode-aliases-internal-state", "Encode() of a private key changes after the caller overwrote an earlier result", map[string]any{"kind": kind})
+			}
 		}
 		run.Distinct("produced/" + kind + "/" + ev.Hex(e))
 		outcome("produced/private/" + kind)
